@@ -363,7 +363,8 @@ def run(tier):
     rp.cov["samples"] = [{"id": o["id"], "eps": [{"name": e["name"], "polls": e["polls"], "runs": len(e["runs"])} for e in o["eps"]]} for o in outs[:3]]
     rp.assumptions = ["a context is modelled by what its Err() returns at each poll (monotone: once done, stays done); Done() channels are not used by the library",
                       "the statement parser's contract in the loop model (fails with the context error at the first of its polls that reports done) rests on the site-table theorem and the every-k sweep",
-                      "the static call graph and SSA value flow see every way an error value reaches a return (see C13)"]
+                      "the static call graph, the enumeration of function values and the SSA value flow see every way an error value reaches a return (see C13)",
+                      "an ignored or merely tested error result counts as kept when the callee holds every value it returns in a struct field that is read into an error arriving at an entry point (the poll helper and Parser.cancelErr); that the reader reports it on every path is established by the every-k sweep"]
     return rp.finish()
 
 
